@@ -354,8 +354,14 @@ struct Runner {
         bool seen_fail = false;
         auto tapegen = rc::gen::scale(static_cast<double>(p->tape_scale),
                                       rc::gen::container<std::vector<uint32_t>>(rc::gen::resize(100, rc::gen::arbitrary<uint32_t>())));
+        // shrink budget (evaluation count, deterministic): once it is used up every further shrink candidate is
+        // accepted as "passing" without being executed, so rapidcheck stops at the smallest failing case found so far
+        // (which is what the fail file holds)
+        long shrink_budget = 4000, shrink_evals = 0;
+        if (const char *e = getenv("VF_SHRINK_BUDGET")) shrink_budget = atol(e);
         bool ok = rc::check(name, [&]() {
             std::vector<uint32_t> words = *tapegen;
+            if (seen_fail && ++shrink_evals > shrink_budget) return;
             bool pass = eval(*p, words, threads, !seen_fail);
             if (!pass) { seen_fail = true; RC_FAIL(st.fail_msg); }
         });
